@@ -124,8 +124,22 @@ def build_hierarchy(spec):
         # "first_comparams": what the layer defines before it is edited (see "edited" below)
         cps = make_instances(dict(ls, comparams=ls["first_comparams"])
                              if "first_comparams" in ls else ls)
-        prefs = [mk(ParentRef, layer_ref=OdxLinkRef.from_id(oid("layer." + p))) for p in ls["parents"]]
+        # "not_inherited": {"dops": [...], "tables": [...], ...} applies to every PARENT-REF of the layer
+        ni = {"not_inherited_" + k: list(v) for k, v in ls.get("not_inherited", {}).items()}
+        prefs = [mk(ParentRef, layer_ref=OdxLinkRef.from_id(oid("layer." + p)), **ni)
+                 for p in ls["parents"]]
         kw = dict(odx_id=oid("layer." + ls["name"]), short_name=ls["name"], variant_type=vt)
+        if ls.get("dops"):
+            # data object properties of the layer's own data dictionary (8-bit numbers)
+            from odxtools.diagdatadictionaryspec import DiagDataDictionarySpec
+            from .build import dop as _dop
+            dops = []
+            for n in ls["dops"]:
+                d = _dop(n, {"dt": "A_UINT32", "bl": 8})
+                d.odx_id = oid(f"layer.{ls['name']}.dop.{n}")
+                dops.append(d)
+            kw["diag_data_dictionary_spec"] = mk(DiagDataDictionarySpec,
+                                                 data_object_props=NamedItemList(dops))
         if ls["type"] != "ecu-shared-data":
             kw.update(comparam_refs=cps, parent_refs=prefs)
         if ls["type"] == "protocol":
